@@ -181,3 +181,16 @@ def reports_error(facts, stmts, depth=2):
                         if reports_error(facts, straight, depth - 1):
                             return True
     return False
+
+
+FIXTURE_PREFIX = '/verif/fixtures/'
+
+
+def is_fixture(a):
+    return a['file'].startswith(FIXTURE_PREFIX)
+
+
+def fixture_verdict(rule, name, fired_on):
+    """fixtures: functions named bad_<rule>_* must be reported, good_<rule>_* must not.  `fired_on`: set of function names the
+    rule fired on among fixture functions; all: all fixture function names relevant to this rule."""
+    pass
